@@ -4,6 +4,13 @@ package engine
 // This also means max line length
 const MaxSearchDepth = 40
 
+// Upper bound on the plies quiescence search can add below the nominal depth:
+// every move there captures (at most 30 men can be captured) or promotes (at most 16 pawns)
+const maxQuiescencePlies = 30 + 16
+
+// Rows of the principal variation table: one per ply reachable by the search plus the empty line below the last one
+const pvTableRows = MaxSearchDepth + maxQuiescencePlies + 2
+
 // Used in calculation of time dedicated to the next move in time-controlled games
 const ExpectedFullMovesToBePlayed = 30
 
